@@ -163,14 +163,30 @@ def idomTables (source sink : V) : List (V × V) → Adj V → Adj V → IdomTab
 def succAdj (g : Graph) : Adj Node := g.nodes.map fun u => (u, g.succ u)
 def predAdj (g : Graph) : Adj Node := g.nodes.map fun u => (u, g.pred u)
 
-/-- `maximal_safe_sequences_via_dominators(G, X)`; `X` in its iteration order. A member of `X` that is
+/-- the edges of `G` whose tail is reachable from the source and whose head reaches the sink
+(`G.nodes_reachable(G.source)`, `G.nodes_reaching(G.sink)`, since fix 4057fb6): only membership in the two node
+sets matters, so they are computed by a plain search here -/
+def onSomeWalk (g : Graph) (source sink : Node) : Res (List Edge) :=
+  let fuel := g.nodes.length + 1
+  match bfs (succAdj g) fuel [source] [source], bfs (predAdj g) fuel [sink] [sink] with
+  | some F, some B => .ok (g.edges.filter fun e => decide (e.1 ∈ F) && decide (e.2 ∈ B))
+  | _, _ => .fuel
+
+/-- `maximal_safe_sequences_via_dominators(G, X)`; `X` in its iteration order. Edges on no source-to-sink walk are
+skipped and dropped from `X` (before fix 4057fb6 `find_idom` raised `IndexError` on them). A member of `X` that is
 not an edge of `G` stays a leaf of `T_s` without `idom_X` entry and python raises `KeyError`; the same
 happens here (`upStep`). -/
 def maxSafeSeqs (g : Graph) (source sink : Node) (X : List Edge) : Res (List (List Edge)) :=
   if X.isEmpty then .ok [] else
-  match idomTables source sink g.edges (succAdj g) (predAdj g) [] [] with
-  | .ok (si, ti) => maxSeqsFromIdoms si ti X
+  match onSomeWalk g source sink with
   | .raises w => .raises w
   | .fuel => .fuel
+  | .ok es =>
+    let X' := if es.length < g.edges.length then X.filter (fun e => decide (e ∈ es)) else X
+    if X'.isEmpty then .ok [] else
+    match idomTables source sink es (succAdj g) (predAdj g) [] [] with
+    | .ok (si, ti) => maxSeqsFromIdoms si ti X'
+    | .raises w => .raises w
+    | .fuel => .fuel
 
 end FP.Safety
